@@ -250,9 +250,15 @@ def selftest_binding(cases):
         pic.decide_extended_transform_flag = orig_flag
         sh.filter_constraint_table = orig_filter
         cf.slices_have_same_dimensions = orig_same
-    good = exec_case((300, v_full[0]))
-    if good["outcome"] != "produced" or not good["accepted"]:
-        raise RuntimeError("binding self-test: reference table not produced+accepted (%r)" % (good,))
+    # a reference event to corrupt: some table under which the unmodified encoder produces an accepted stream (in the
+    # thorough tier the first candidate may carry a second restriction that makes the configuration unsatisfiable)
+    good = None
+    for c in ([v_full[0]] + [c for c in cases if c["class"] == "full" and c.get("design") == "produced" and c["pattern"] == "any"])[:40]:
+        good = exec_case((300, c))
+        if good["outcome"] == "produced" and good["accepted"]:
+            break
+    if good is None or good["outcome"] != "produced" or not good["accepted"]:
+        raise RuntimeError("binding self-test: no reference table produced+accepted (last: %r)" % (good,))
     corrupt = dict(good, accepted=False, vexc="ValueNotAllowedInLevel", vkey="asym_transform_index_flag", vvalue=0)
     evs = e_full + e_real + e_geom + [corrupt]
     bad, _ = c15.validate_chunk(("LevelTablesTrace", _wire(evs), TRACE_CFG, []))
